@@ -31,10 +31,19 @@ Definition w_nlv (l : list (bytes * bytes)) : bytes :=
       match single with
       | Some b => b
       | None =>
-          let parts := flat_map (fun e => match fst e, snd e with
-                                          | [], _ | _, [] => []
-                                          | _, _ => match w_map_entry e with [] => [] | b => [b] end
-                                          end) l in
+          (* of several values whose tags are written alike the first is kept (fix 05721dc); entries with an empty
+             tag or text are skipped before their key is registered *)
+          let kept := (fix go (l : list (bytes * bytes)) (keys : list bytes) : list (bytes * bytes) :=
+                         match l with
+                         | [] => []
+                         | e :: r =>
+                             match fst e, snd e with
+                             | [], _ | _, [] => go r keys
+                             | _, _ => let k := string_bytes false (fst e) in
+                                       if existsb (bytes_eqb k) keys then go r keys else e :: go r (k :: keys)
+                             end
+                         end) l [] in
+          let parts := flat_map (fun e => match w_map_entry e with [] => [] | b => [b] end) kept in
           match parts with
           | [] => []
           | _ => x7b :: join_with comma parts ++ [x7d]
